@@ -29,7 +29,7 @@ class HardInterrupt(BaseException):
 
 
 # what callers actually raise from a cancellation callback: their own subclass of some standard class
-_BASES = {"exc": Exception, "base": BaseException, "runtime": RuntimeError, "value": ValueError, "key": KeyError,
+_BASES = {"stop": StopIteration, "exc": Exception, "base": BaseException, "runtime": RuntimeError, "value": ValueError, "key": KeyError,
           "os": OSError, "type": TypeError, "arith": ArithmeticError, "assert": AssertionError, "lookup": IndexError,
           "timeout": TimeoutError, "attr": AttributeError, "interrupted": InterruptedError}
 _CLASSES = {"exc": Interrupt, "base": HardInterrupt}
@@ -75,6 +75,28 @@ class Injector:
             raise e
 
 
+class BudgetInjector(Injector):
+    """A callback OBJECT with a truth value, as budget / queue-like helpers have: it is falsy exactly
+    when it is about to raise (nothing left).  Being consulted must not depend on that."""
+
+    def __len__(self):
+        i = self.calls
+        sess = sched.ACTIVE
+        item = None
+        if sess is not None:
+            cur = getattr(sess.current_task, "value", None)
+            item = cur[1] if cur is not None else None
+        return 0 if (i in self.at_counts or (item is not None and item in self.at_items)) else 1
+
+
+class NeverTrueInjector(Injector):
+    def __bool__(self):
+        return False
+
+
+INJECTORS = {"plain": Injector, "budget": BudgetInjector, "falsy": NeverTrueInjector}
+
+
 def n_subcubes(w):
     return cubes.scaffold_size(w)
 
@@ -113,7 +135,7 @@ class Runner:
         aggs = [cubes.build_agg(w, spec, a) for spec, a in zip(w["aggs"], args)]
         at = list(plan["at"])
         if mode == "serial":
-            inj = Injector(at_counts=at, exc_cls=exc_cls)
+            inj = INJECTORS[plan.get("injector", "plain")](at_counts=at, exc_cls=exc_cls)
             cube.parallel = False
             cube.check_interrupt = inj
             out = exc = None
@@ -130,6 +152,7 @@ class Runner:
             if at:
                 self.count("fault_interrupt_serial_" + ("BaseException" if exc_cls is HardInterrupt else "Exception"))
                 self.count("interrupt_class_" + plan.get("exc", "exc"))
+                self.count("injector_" + plan.get("injector", "plain"))
                 if at[0] == 0:
                     self.count("probe_interrupt_first_subcube")
                 elif at[0] == self.k - 1:
@@ -137,7 +160,7 @@ class Runner:
                 else:
                     self.count("probe_interrupt_middle_subcube")
         else:
-            inj = Injector(at_items=at, exc_cls=exc_cls)
+            inj = INJECTORS[plan.get("injector", "plain")](at_items=at, exc_cls=exc_cls)
             res = self.pooled(plan, "", cube, aggs, inj)
             self.judge_pooled(inj, at, res)
             self.count("pooled_runs")
@@ -304,6 +327,7 @@ def plans_for(w, rng, tier, est_steps):
                       "recovery": rng.choice(("serial", "pooled"))})
     for p in plans:
         p.setdefault("poolsize", rng.choice((1, 2, 3, 4, 8)))
+        p["injector"] = rng.choice(("plain", "plain", "budget", "falsy"))
         for prefix in ("", "rec_"):
             seed = rng.getrandbits(48)
             p[prefix + "sched_seed"] = seed
